@@ -16,9 +16,9 @@ def tlc_line(obj):
 
 
 def model_check_and_replay(ctx, binp):
-    """breadth (full alphabet, shallow) and depth (one value name, one type name, deeper: define / delete / copy / define again ...)"""
+    """breadth (full alphabet, shallow), names with a dot in every position, and depth (one value name, one type name, deeper: define / delete / copy / define again ...)"""
     s = None
-    for cfg in (("MC_AnkoEnv_quick.cfg", "MC_AnkoEnv_deep.cfg") if ctx.quick() else ("MC_AnkoEnv_thorough.cfg", "MC_AnkoEnv_deep5.cfg")):
+    for cfg in (("MC_AnkoEnv_quick.cfg", "MC_AnkoEnv_deep.cfg", "MC_AnkoEnv_dots.cfg") if ctx.quick() else ("MC_AnkoEnv_thorough.cfg", "MC_AnkoEnv_deep5.cfg", "MC_AnkoEnv_dots.cfg")):
         s1 = model_check_and_replay_cfg(ctx, binp, cfg)
         s = s or s1
     return s
